@@ -42,6 +42,14 @@ CHECKS = {
    "18 closed scenarios on the transformed real code: k = 1..3 waiters (each Lock; Wait through a Locker whose Unlock the harness observes), a signaller that waits until all k have released the lock and then issues m = 1..3 Signals or one Broadcast, optionally a thread cancelling one waiter's context at any moment, optionally Broadcasts issued before any waiter exists. Every schedule is explored for k = 1, m <= 2; otherwise every schedule with at most 2 (thorough 3) preemptions (k = 3 additionally at most 3 non-default choices at blocking points). Oracle at quiescence: a waiter with a live context is still blocked although fewer Waits returned nil than Signals were issued (or any waiter blocked after Broadcast) = lost wakeup; nil return holds the lock; error return is the context's error, without the lock; no cancelled waiter left blocked. The known capacity-1 defect (k >= 2, m >= 2) is a recorded finding; exploration continues below it so other violations are still reported.",
    "As C10 (atomic steps between synchronisation operations, runtime semantics pinned by unit tests). 'Entered Wait' = has released the caller's lock. Known finding masks only lost-wakeup reports of scenarios with k >= 2 and m >= 2.",
    "DESIGN.md §4 C16"),
+ "C13": ("gomc", "stateless model checking of the real parallel.Do/DoContext/Map/MapContext (and the real errgroup) under a controlled scheduler: all schedules within an iterated preemption bound",
+   "49 closed scenarios on the transformed real code (parallel and golang.org/x/sync/errgroup): n = 0..4, parallelism -1/0/1/2/3/>n with the GOMAXPROCS answer controlled (2 or 3), every failing subset of size <= 2 at the first/last positions, caller context live / already cancelled / cancelled by another thread mid-flight. f logs entry and exit around a scheduling point, so every relative order of call starts and ends is reachable. Explored: every execution with at most 3 (thorough 4) preemptions. Oracle: exactly one call per index when nothing fails and never two; concurrent-call gauge <= effective parallelism; out[i] = f(in[i]); all started calls have exited at the moment of return and none starts afterwards; a returned error is one a call returned or the caller's context error; an error is never swallowed; while the caller's context is live at most parallelism-1 calls begin with a cancelled context.",
+   "As C10. errgroup is the version pinned by juniper's go.mod, transformed like the library itself. Larger n and parallelism values are covered only through the structure of the code (one shared counter, identical workers).",
+   "DESIGN.md §4 C13"),
+ "C12": ("gomc", "stateless model checking of the real chans.Merge (all four arity paths incl. reflect.Select), chans.Replicate and stream.Merge under a controlled scheduler within iterated preemption and deviation bounds",
+   "43 closed scenarios on the transformed real code: chans.Merge with 0..5 inputs whose close order is scripted (all permutations for 2 and 3 inputs, four orders each for 4 and 5), and with producer threads on unbuffered inputs; Replicate with 0-2 destinations of capacity 0/1; stream.Merge with 0-3 instrumented scripted inputs (values, immediate end, error at each position, inputs that block until their context ends), read to the end plus two more calls or closed after j values. Explored: all executions with at most 2 preemptions (1 for the scripted close orders) and a bounded number of simultaneous non-default select-arm choices. Oracle: output = interleaving with the same multiset and per-input order; the blocking call returns / End is reported in every execution (deadlock otherwise) and End is sticky; an input's error is the one reported, never End; after the merged stream's Close returned no thread started by it is alive and every input was closed exactly once, never during or before a Next.",
+   "As C10. stream.Merge's inputs honour their context. After an error has been reported a value that was already being handed over may still arrive: only the normal end is required to be sticky.",
+   "DESIGN.md §4 C12"),
 }
 props = [json.loads(l) for l in open(os.path.join(ROOT, "properties.jsonl"))]
 hook_commits = subprocess.run(["git","-C","/repo","log","--format=%H %s","--grep=^verif hook"],capture_output=True,text=True).stdout.strip().splitlines()
